@@ -109,6 +109,11 @@ def work(ctx, tier):
             _one(ctx, sc, e, stats, sample=(k < 2 and ctx.shard == 0))
         ctx.inc("random_scenarios")
     common.crossing_slice(ctx, tier, common.rng_for(ctx, "crossing"), lambda sc, e: _one(ctx, sc, e, stats), entries=entries)
+    common.unobserved_slice(ctx, tier, common.rng_for(ctx, "unobserved"), entries=entries)
+    if ctx.shard == 0:
+        from . import hang
+
+        hang.hung_attempt_runs(ctx, "C04")
     # whole calls racing in threads on one policy object: each call surfaces an object of ITS OWN last attempt
     tconc.thread_slice(ctx, tier, common.rng_for(ctx, "threads"), ["identity"], budget=True, breaker=True)
     common.flush_stats(ctx, stats)
@@ -131,6 +136,9 @@ def conclude(ctx):
     floors["scenarios_with_abort_flag_raised_by_the_terminal_event"] = (ctx.cnt["scenarios_with_abort_flag_raised_by_the_terminal_event"], 100)
     floors["first_success_checks_with_a_raising_callback"] = (ctx.cnt["first_success_checks_with_a_raising_callback"], 100)
     floors.update(tconc.floors(ctx))
+    floors["hung_attempt_runs"] = (ctx.cnt["hung_attempt_runs"], 6)
+    floors["unobserved_run_pairs"] = (ctx.cnt["unobserved_run_pairs"], 300)
+    floors["unobserved_failed_runs_compared"] = (ctx.cnt["unobserved_failed_runs_compared"], 100)
     return dict(
         rule=(
             "sweep of outcome strings x cap grids + random mixed exception/result histories (incl. special exceptions, handlers, budgets) over the 14 call-style entry points; "
@@ -146,6 +154,10 @@ def conclude(ctx):
 
 
 def replay(data):
+    if "hang" in data["payload"]:
+        from . import hang
+
+        return hang.replay_hung_attempt_runs("C04")
     if data.get("key") in ("operation-invoked-after-a-success", "returned-not-the-first-success"):
         import collections
 
@@ -165,4 +177,6 @@ def replay(data):
             print("  !!", m)
         print("replay:", "violation reproduced" if c.bad else "no violation on this tree")
         return 1 if c.bad else 0
+    if data.get("key") == "behaviour-depends-on-being-observed":
+        return common.replay_with(data, common.judge_unobserved)
     return common.replay_trace(data, [O.o_surface])
